@@ -49,3 +49,22 @@ const fn attack_occupations(square_shift: usize, directions: &[Direction]) -> u6
 
     result
 }
+
+/// Read-only accessors for verification harnesses (compiled only with `--cfg inkayaku_verif`).
+#[cfg(inkayaku_verif)]
+pub mod verif {
+    use super::{UnsafeNonmagicsExt, BLACK_PAWN_NONMAGICS, KING_NONMAGICS, KNIGHT_NONMAGICS, WHITE_PAWN_NONMAGICS};
+
+    /// which: 0 = king, 1 = knight, 2 = white pawn attacks, 3 = black pawn attacks
+    pub fn leaper(which: u32, square: u32) -> u64 {
+        assert!(square < 64);
+        unsafe {
+            match which {
+                0 => KING_NONMAGICS.get_attacks(square),
+                1 => KNIGHT_NONMAGICS.get_attacks(square),
+                2 => WHITE_PAWN_NONMAGICS.get_attacks(square),
+                _ => BLACK_PAWN_NONMAGICS.get_attacks(square),
+            }
+        }
+    }
+}
